@@ -50,6 +50,11 @@ const (
 
 	// sigOtherRound is the one oracle clause the harness can step over when it is listed as a known finding.
 	sigOtherRound = "C15:stored-cert-replaced-without-more-signers:other-round"
+
+	// sigHistoryOnly: on a full node consensus started at a height the node learnt decided in this process, where the
+	// decided instance was found in the history storage and therefore never entered the in-memory instance container
+	// (see heldOnlyInHistory). Own signature, stepped over when listed as known.
+	sigHistoryOnly = "C15:consensus-started-at-height-held-only-in-history"
 )
 
 var logger = zap.NewNop()
@@ -154,7 +159,7 @@ func TestMain(m *testing.M) {
 // (D), so that every op generator is context free and still aims at, just below or just above the
 // interesting heights; the interpreter resolves them (see resolve) and prints the absolute program.
 type Op struct {
-	K      string `json:"k"`                // duty ctrlstart cert local precons finish restart
+	K      string `json:"k"`                // duty ctrlstart cert recert local precons finish restart
 	D      int    `json:"d,omitempty"`      // duty ctrlstart cert: slot = cursor+D, at least 1 (0 only when Base is 0)
 	Round  uint64 `json:"round,omitempty"`  // cert: round of the certificate
 	Extra  int    `json:"extra,omitempty"`  // cert local precons: signers beyond quorum (clamped to the committee)
@@ -162,7 +167,8 @@ type Op struct {
 	Upto   string `json:"upto,omitempty"`   // local: proposal | prepare | commit
 	Reopen bool   `json:"reopen,omitempty"` // restart: close and re-open the database (disk cases only)
 	Probe  bool   `json:"probe,omitempty"`  // restart: then StartNewDuty at (restored height + D); cert: then StartNewDuty at (its height + D2)
-	D2     int    `json:"d2,omitempty"`     // cert with probe
+	D2     int    `json:"d2,omitempty"`     // cert / recert with probe
+	Pick   int    `json:"pick,omitempty"`   // recert: which of the certificates delivered so far
 }
 
 type Prog struct {
@@ -539,6 +545,7 @@ func run(p Prog) *prog.Result {
 		cls("genesis-base")
 	}
 
+	epoch := 0 // number of restarts so far
 	// reference model
 	hasFloor, floor := false, uint64(0) // highest slot started or height learnt decided; after restart: persisted height
 	// everSeen/everMax: highest slot started or height learnt decided in the whole program, restarts included. Only a
@@ -554,19 +561,36 @@ func run(p Prog) *prog.Result {
 			everSeen, everMax = true, h
 		}
 	}
+	restarted := false                    // a restart happened and restored a decided height
+	restoredHeight := uint64(0)           // the height restored by the last such restart
+	firstDecidedEpoch := map[uint64]int{} // height -> number of restarts before it was first learnt decided
+	// heldOnlyInHistory: attribution of a start at the floor to the full node's history storage: the height was learnt
+	// decided before a restart (so a full node may hold it in history although its highest record is lower), it is not the
+	// height the last restart restored, and it is the current floor (re-learnt in this process).
+	heldOnlyInHistory := func(h uint64) bool {
+		ep, ok := firstDecidedEpoch[h]
+		return p.Full && ok && ep < epoch && hasFloor && h == floor && !(restarted && h == restoredHeight)
+	}
 	decidedAt := func(h uint64) {
+		if _, ok := firstDecidedEpoch[h]; !ok {
+			firstDecidedEpoch[h] = epoch
+		}
 		if !everDecided || h > everDecidedMax {
 			everDecided, everDecidedMax = true, h
 		}
 	}
 	topmost := func(h uint64) bool { return !everSeen || h >= everMax }
 	atOrBelow := func(h uint64) bool { return hasFloor && h <= floor }
-	restarted := false                            // a restart happened and restored a decided height
-	restoredHeight := uint64(0)                   // the height restored by the last such restart
 	decidedRounds := map[uint64]map[uint64]bool{} // height -> rounds a certificate was delivered / decided for
 	prev := e.observe()
 	cursor := p.Base
 	reopens := 0
+	type certRec struct {
+		h, round uint64
+		signers  []uint64
+		epoch    int
+	}
+	var delivered []certRec // every certificate delivered so far
 
 	resolve := func(d int) uint64 {
 		s := int64(cursor) + int64(d)
@@ -676,6 +700,77 @@ func run(p Prog) *prog.Result {
 		return judgeStore(step, "duty", -1)
 	}
 
+	// doCert delivers one decided certificate through the runner and judges it; stop = the case ends (failure or discard).
+	doCert := func(step int, h, round uint64, signers []uint64, how string, probe bool, d2 int) (*prog.Result, bool) {
+		switch {
+		case !hasFloor || h > floor:
+			cls("future-decided")
+		case h == floor:
+			cls("current-decided")
+		default:
+			cls("past-decided")
+		}
+		if prev.present && h == prev.height {
+			switch {
+			case len(signers) > len(prev.signers):
+				cls("growing-signers")
+			case len(signers) < len(prev.signers):
+				cls("shrinking-signers")
+			default:
+				cls("equal-signers")
+			}
+		}
+		if rs := decidedRounds[h]; rs != nil && !rs[round] {
+			cls("other-round")
+		}
+		if round != 1 {
+			cls("cert-round>1")
+		}
+		if !firstDutySeen {
+			cls("cert-before-first-duty")
+		}
+		if e.nd.run.GetBaseRunner().State != nil && !e.nd.run.GetBaseRunner().State.Finished {
+			cls("cert-while-duty-running")
+		} else {
+			cls("cert-without-running-duty")
+		}
+		err := e.nd.run.ProcessConsensus(logger, e.cert(h, round, signers))
+		e.logf("%d: ProcessConsensus(decided height %d round %d signers %v)%s -> %v   [floor %s]", step, h, round, signers, how, err, floorStr(hasFloor, floor))
+		if err != nil && (strings.Contains(err.Error(), "invalid decided msg") || strings.Contains(err.Error(), "invalid msg")) {
+			// the node says a certificate that is valid by construction is invalid: not this property's business
+			res.Discard = true
+			return res, true
+		}
+		must := int64(-1)
+		if topmost(h) {
+			must = int64(h)
+		}
+		raise(h)
+		decidedAt(h)
+		if decidedRounds[h] == nil {
+			decidedRounds[h] = map[uint64]bool{}
+		}
+		decidedRounds[h][round] = true
+		delivered = append(delivered, certRec{h: h, round: round, signers: signers, epoch: epoch})
+		if r := judgeStore(step, "cert", must); r != nil {
+			return r, true
+		}
+		if probe {
+			// an old duty right after the certificate: at its height or just below
+			ps := int64(h) + int64(d2)
+			if ps < 0 || (ps == 0 && p.Base > 0) {
+				ps = int64(h)
+			}
+			if uint64(ps) > cursor {
+				cursor = uint64(ps)
+			}
+			if r := doDuty(step, uint64(ps), " right after the certificate"); r != nil {
+				return r, true
+			}
+		}
+		return nil, false
+	}
+
 	for step, op := range p.Ops {
 		br := e.nd.run.GetBaseRunner()
 		switch op.K {
@@ -694,7 +789,12 @@ func run(p Prog) *prog.Result {
 				cls("rerun-attempt-after-restart")
 			}
 			if err == nil {
-				if atOrBelow(h) {
+				if atOrBelow(h) && heldOnlyInHistory(h) && prog.IsKnown(sigHistoryOnly) {
+					prog.KnownHit(testName, sigHistoryOnly)
+					cls("known:start-at-height-held-only-in-history")
+				} else if atOrBelow(h) && heldOnlyInHistory(h) {
+					return fail(res, e, sigHistoryOnly, "step %d: full node: StartNewInstance for height %d succeeded although a decided certificate for height %d was learnt in this process (the instance was found in the history storage and is not in the in-memory container)", step, h, h)
+				} else if atOrBelow(h) {
 					return fail(res, e, "C15:instance-started-at-or-below-floor", "step %d: StartNewInstance for height %d succeeded although height %d was already started or learnt decided (restored by restart: %v)", step, h, floor, restarted)
 				}
 				raise(h)
@@ -704,73 +804,66 @@ func run(p Prog) *prog.Result {
 			}
 
 		case "cert":
-			h := resolve(op.D)
 			round := op.Round
 			if round == 0 {
 				round = 1
 			}
-			signers := e.signersOf(op)
-			switch {
-			case !hasFloor || h > floor:
-				cls("future-decided")
-			case h == floor:
-				cls("current-decided")
-			default:
-				cls("past-decided")
-			}
-			if prev.present && h == prev.height {
-				switch {
-				case len(signers) > len(prev.signers):
-					cls("growing-signers")
-				case len(signers) < len(prev.signers):
-					cls("shrinking-signers")
-				default:
-					cls("equal-signers")
-				}
-			}
-			if rs := decidedRounds[h]; rs != nil && !rs[round] {
-				cls("other-round")
-			}
-			if round != 1 {
-				cls("cert-round>1")
-			}
-			if !firstDutySeen {
-				cls("cert-before-first-duty")
-			}
-			if br.State != nil && !br.State.Finished {
-				cls("cert-while-duty-running")
-			} else {
-				cls("cert-without-running-duty")
-			}
-			err := e.nd.run.ProcessConsensus(logger, e.cert(h, round, signers))
-			e.logf("%d: ProcessConsensus(decided height %d round %d signers %v) -> %v   [floor %s]", step, h, round, signers, err, floorStr(hasFloor, floor))
-			if err != nil && (strings.Contains(err.Error(), "invalid decided msg") || strings.Contains(err.Error(), "invalid msg")) {
-				// the node says a certificate that is valid by construction is invalid: not this property's business
-				res.Discard = true
-				return res
-			}
-			must := int64(-1)
-			if topmost(h) {
-				must = int64(h)
-			}
-			raise(h)
-			decidedAt(h)
-			if decidedRounds[h] == nil {
-				decidedRounds[h] = map[uint64]bool{}
-			}
-			decidedRounds[h][round] = true
-			if r := judgeStore(step, "cert", must); r != nil {
+			if r, stop := doCert(step, resolve(op.D), round, e.signersOf(op), "", op.Probe, op.D2); stop {
 				return r
 			}
-			if op.Probe {
-				// an old duty right after the certificate: at its height or just below
-				ps := int64(h) + int64(op.D2)
-				if ps < 0 || (ps == 0 && p.Base > 0) {
-					ps = int64(h)
+
+		case "recert":
+			// a certificate that was delivered before is delivered again (peers re-broadcast decided messages, history
+			// sync): same height and round, the same signers or more. Preferably one for a height above the current floor,
+			// i.e. after a restart one between the restored height and the highest height ever started.
+			if len(delivered) == 0 {
+				e.logf("%d: recert (no certificate delivered yet: skipped)", step)
+				cls("recert-skipped")
+				continue
+			}
+			var above []int
+			for i, d := range delivered {
+				if !hasFloor || d.h > floor {
+					above = append(above, i)
 				}
-				if r := doDuty(step, uint64(ps), " right after the certificate"); r != nil {
-					return r
+			}
+			idx := op.Pick % len(delivered)
+			if len(above) > 0 && op.Pick%4 != 3 {
+				idx = above[(op.Pick/4)%len(above)]
+			}
+			d := delivered[idx]
+			signers := append([]uint64(nil), d.signers...)
+			for _, x := range op.Perm {
+				if len(signers) >= len(d.signers)+op.Extra || x < 1 || x > p.N {
+					continue
 				}
+				dup := false
+				for _, y := range signers {
+					dup = dup || y == uint64(x)
+				}
+				if !dup {
+					signers = append(signers, uint64(x))
+				}
+			}
+			sort.Slice(signers, func(i, j int) bool { return signers[i] < signers[j] })
+			cls("recert")
+			if d.epoch < epoch {
+				cls("recert-of-certificate-from-before-a-restart")
+				if restarted && d.h > floor && everSeen && d.h <= everMax {
+					// the shape of the third seeding round: history (full node) or nothing (light node) holds the height, the
+					// durable highest instance is below it, a higher duty was started before the restart
+					cls("recert-between-restored-height-and-highest-ever-started")
+					cls("recert-between-restored-height-and-highest-ever-started:" + map[bool]string{true: "full", false: "light"}[p.Full])
+					if op.Probe {
+						cls("recert-between-restored-height-and-highest-ever-started:probed")
+					}
+				}
+			}
+			if len(signers) > len(d.signers) {
+				cls("recert-with-more-signers")
+			}
+			if r, stop := doCert(step, d.h, d.round, signers, " again", op.Probe, op.D2); stop {
+				return r
 			}
 
 		case "local":
@@ -854,7 +947,12 @@ func run(p Prog) *prog.Result {
 				h := uint64(br.State.RunningInstance.State.Height)
 				cls("precons-consensus-started")
 				cls("precons-consensus-started:" + role.String())
-				if atOrBelow(h) {
+				if atOrBelow(h) && heldOnlyInHistory(h) && prog.IsKnown(sigHistoryOnly) {
+					prog.KnownHit(testName, sigHistoryOnly)
+					cls("known:start-at-height-held-only-in-history")
+				} else if atOrBelow(h) && heldOnlyInHistory(h) {
+					return fail(res, e, sigHistoryOnly, "step %d: full node: a pre-consensus quorum for the duty of slot %d started consensus at height %d although a decided certificate for height %d was learnt in this process (the instance was found in the history storage and is not in the in-memory container)", step, slot, h, h)
+				} else if atOrBelow(h) {
 					return fail(res, e, "C15:consensus-started-at-or-below-floor", "step %d: a pre-consensus quorum for the duty of slot %d started consensus at height %d although height %d was already started or learnt decided (restored by restart: %v)", step, slot, h, floor, restarted)
 				}
 				raise(h)
@@ -889,6 +987,7 @@ func run(p Prog) *prog.Result {
 			}
 			loadErr := e.startNode()
 			ownPre, firstDutySeen = nil, false
+			epoch++
 			after := e.observe()
 			cls("restart")
 			e.logf("%d: restart (reopen=%v) -> load err %v, stored %v, controller height %d   [floor %s]", step, reopened, loadErr, after, e.nd.ctrl.Height, floorStr(hasFloor, floor))
@@ -951,7 +1050,7 @@ var allOps = []int{1, 2, 3, 4, 5, 6, 7}
 
 func genOp(t *rapid.T) Op {
 	k := rapid.SampledFrom([]string{"duty", "duty", "duty", "duty", "duty", "cert", "cert", "cert", "cert", "cert", "cert",
-		"local", "local", "local", "precons", "precons", "precons", "restart", "restart", "restart", "restart", "ctrlstart", "finish"}).Draw(t, "k")
+		"local", "local", "local", "precons", "precons", "precons", "recert", "recert", "recert", "restart", "restart", "restart", "restart", "ctrlstart", "finish"}).Draw(t, "k")
 	op := Op{K: k}
 	switch k {
 	case "duty", "ctrlstart":
@@ -963,6 +1062,12 @@ func genOp(t *rapid.T) Op {
 		op.Perm = rapid.Permutation(allOps).Draw(t, "perm")
 		op.Probe = rapid.SampledFrom([]bool{false, false, true}).Draw(t, "probe")
 		op.D2 = rapid.SampledFrom([]int{-1, 0, 0}).Draw(t, "d2")
+	case "recert":
+		op.Pick = rapid.IntRange(0, 15).Draw(t, "pick")
+		op.Extra = rapid.SampledFrom([]int{0, 0, 1, 2}).Draw(t, "extra")
+		op.Perm = rapid.Permutation(allOps).Draw(t, "perm")
+		op.Probe = rapid.SampledFrom([]bool{false, true, true}).Draw(t, "probe")
+		op.D2 = rapid.SampledFrom([]int{-1, 0, 0, 0, 1}).Draw(t, "d2")
 	case "precons":
 		op.Extra = rapid.SampledFrom([]int{0, 0, 1}).Draw(t, "extra")
 		op.Perm = rapid.Permutation(allOps).Draw(t, "perm")
@@ -978,8 +1083,41 @@ func genOp(t *rapid.T) Op {
 	return op
 }
 
+// genGapPrefix draws the opening of the "gap" shape: height h0 decided; a duty two or three slots above it started (for
+// the roles with a pre-consensus phase: and brought to consensus) and left undecided; a certificate for a height in
+// between (history only on a full node, nothing durable on a light node); restart; that certificate again, then a duty
+// at its height or next to it. Ordinary ops follow (and shrink like any others).
+func genGapPrefix(t *rapid.T) []Op {
+	perm := func() []int { return rapid.Permutation(allOps).Draw(t, "perm") }
+	up := rapid.SampledFrom([]int{2, 2, 3}).Draw(t, "gap")
+	back := -1
+	if up == 3 {
+		back = rapid.SampledFrom([]int{-1, -2}).Draw(t, "back")
+	}
+	ops := []Op{
+		{K: "cert", D: 0, Round: 1, Extra: rapid.SampledFrom([]int{0, 0, 1}).Draw(t, "extra"), Perm: perm()},
+		{K: "duty", D: up},
+		{K: "precons", Perm: perm()},
+		{K: "cert", D: back, Round: 1, Extra: rapid.SampledFrom([]int{0, 0, 1}).Draw(t, "extra"), Perm: perm()},
+		{K: "restart", Reopen: rapid.Bool().Draw(t, "reopen")},
+	}
+	if rapid.Bool().Draw(t, "between") {
+		ops = append(ops, genOp(t))
+	}
+	return append(ops, Op{K: "recert", Pick: rapid.SampledFrom([]int{0, 0, 0, 4, 3}).Draw(t, "pick"), Extra: rapid.SampledFrom([]int{0, 0, 1}).Draw(t, "extra"),
+		Perm: perm(), Probe: true, D2: rapid.SampledFrom([]int{-1, 0, 0, 0, 1}).Draw(t, "d2")})
+}
+
 func gen(t *rapid.T) Prog {
 	n := rapid.SampledFrom([]int{4, 4, 4, 7}).Draw(t, "n")
+	var prefix []Op
+	if rapid.IntRange(0, 3).Draw(t, "shape") == 2 {
+		prefix = genGapPrefix(t)
+	}
+	minOps := 2
+	if prefix != nil {
+		minOps = 0
+	}
 	return Prog{
 		Role: rapid.SampledFrom([]string{"attester", "attester", "aggregator", "proposer", "sync-contribution"}).Draw(t, "role"),
 		N:    n,
@@ -987,7 +1125,7 @@ func gen(t *rapid.T) Prog {
 		Full: rapid.Bool().Draw(t, "full"),
 		Disk: rapid.IntRange(0, 24).Draw(t, "disk") == 13, // rapid favours small values: a middle value keeps disk cases rare (re-open costs > 1 s)
 		Base: rapid.SampledFrom([]uint64{1, 2, 40, 6000000, 6000000, 6000000, 0}).Draw(t, "base"),
-		Ops:  rapid.SliceOfN(rapid.Custom(genOp), 2, 20).Draw(t, "ops"),
+		Ops:  append(prefix, rapid.SliceOfN(rapid.Custom(genOp), minOps, 20-len(prefix)).Draw(t, "ops")...),
 	}
 }
 
